@@ -49,11 +49,18 @@ public:
             else mLifeClosing = true;
             return;
         }
+        if (lingerMode) {
+            // a transport whose close is not immediate for the reading side: the close is recorded and writes are
+            // refused from now on, but segments that still arrive are handed to whoever reads (family "sockl")
+            if (isWritable()) { if (onClose && !mClosing) onClose(); setOpenMode(QIODevice::ReadOnly); }
+            return;
+        }
         if (isOpen()) {
             if (onClose && !mClosing) onClose();
             setOpenMode(QIODevice::NotOpen);
         }
     }
+    bool lingerMode = false;
     // QAbstractSocket::disconnectFromHost(): the connection is shut once pending bytes are
     // flushed; until then the socket stays writable.  Logged as the close request; later
     // writes still reach the wire (and are then visible as bytes after the close).
